@@ -12,15 +12,92 @@
 package simsched
 
 import (
+	"runtime"
 	"sync"
 	"syscall"
+	"time"
 	"unsafe"
 )
 
 type worker struct {
 	id     int
 	rd, wr int // this worker's gate
+	goid   uint64
 }
+
+// GoroutineMode is switched on (by an init function the rewriter adds) when the code under test
+// contains go statements. The goroutines it spawns are not workers of the simulator: they run
+// under the Go scheduler, and a yield point reached by one of them does nothing. Telling them from
+// the workers needs the identity of the calling goroutine, which costs a microsecond per yield
+// point; without go statements in the tree the single running worker is simply remembered.
+var GoroutineMode bool
+
+// Deadlocked is set by Run when every unfinished worker has been waiting for a lock, a Once or a
+// WaitGroup for ten seconds without anybody making a step.
+var Deadlocked bool
+
+// BlockedPolls counts the scheduling points at which a worker found a lock, a Once or a WaitGroup
+// not ready and handed the processor to another worker (touched by the running worker only).
+var BlockedPolls int
+
+var workers []*worker // immutable while a run is active
+
+//go:norace
+func goid() uint64 {
+	var buf [40]byte
+	n := runtime.Stack(buf[:], false)
+	// "goroutine 123 ["
+	var id uint64
+	for i := len("goroutine "); i < n && buf[i] >= '0' && buf[i] <= '9'; i++ {
+		id = id*10 + uint64(buf[i]-'0')
+	}
+	return id
+}
+
+// me is the worker the calling goroutine is, or nil.
+//
+//go:norace
+func me() *worker {
+	if !active {
+		return nil
+	}
+	if !GoroutineMode {
+		return cur
+	}
+	g := goid()
+	for _, w := range workers {
+		if w.goid == g {
+			return w
+		}
+	}
+	return nil
+}
+
+// Controlled reports whether the calling goroutine is a worker of a running simulation.
+//
+//go:norace
+func Controlled() bool { return me() != nil }
+
+// YieldBlocked is the scheduling point of a worker that cannot proceed until somebody else has
+// made a step (it polls a lock, a Once or a WaitGroup): the scheduler runs another worker.
+//
+//go:norace
+func YieldBlocked() {
+	w := me()
+	if w == nil {
+		runtime.Gosched()
+		return
+	}
+	yieldSite[w.id] = blockedSite
+	BlockedPolls++
+	rawWrite(schedWr, byte(w.id)|0x40)
+	rawRead(w.rd)
+	if !GoroutineMode {
+		cur = w
+	}
+}
+
+const blockedSite = -100
 
 var (
 	active  bool
@@ -71,14 +148,19 @@ func rawWrite(fd int, v byte) {
 //
 //go:norace
 func Yield(site int) {
-	if !active || cur == nil {
+	if !active {
 		return
 	}
-	w := cur
+	w := me()
+	if w == nil {
+		return
+	}
 	yieldSite[w.id] = site
 	rawWrite(schedWr, byte(w.id))
 	rawRead(w.rd)
-	cur = w
+	if !GoroutineMode {
+		cur = w
+	}
 }
 
 // GlobalSiteBase: yield sites numbered from here on sit directly before a statement that mentions a
@@ -94,9 +176,10 @@ type Chooser func(runnable []int, last int, step int, site int) int
 //
 //go:norace
 func Run(fns []func(), choose Chooser, maxSteps int) (schedule []byte, ok bool) {
-	if len(fns) > 100 {
+	if len(fns) > 60 {
 		panic("too many workers")
 	}
+	Deadlocked = false
 	var p [2]int
 	if err := syscall.Pipe(p[:]); err != nil {
 		panic(err)
@@ -117,22 +200,54 @@ func Run(fns []func(), choose Chooser, maxSteps int) (schedule []byte, ok bool) 
 	yieldSite = [256]int{} // a worker that has not started yet is "at site 0", whatever ran before in this process
 	var wg sync.WaitGroup
 	done := make([]bool, len(fns))
-	active = true
+	blocked := make([]bool, len(fns))
+	workers = ws
 	for i := range fns {
 		wg.Add(1)
 		go runWorker(ws[i], fns[i], &wg)
 	}
+	// every worker has registered itself (and is parked at its gate) before the first decision
+	for range fns {
+		rawRead(schedRd)
+	}
+	active = true
 	last := -1
 	ok = true
+	stuckSince := time.Time{}
 	for {
 		var runnable []int
+		left := 0
 		for i := range fns {
 			if !done[i] {
-				runnable = append(runnable, i)
+				left++
+				if !blocked[i] {
+					runnable = append(runnable, i)
+				}
 			}
 		}
-		if len(runnable) == 0 {
+		if left == 0 {
 			break
+		}
+		if len(runnable) == 0 {
+			// everybody polls: goroutines outside the simulator may still release what they wait for
+			if stuckSince.IsZero() {
+				stuckSince = time.Now()
+			} else if time.Since(stuckSince) > 10*time.Second {
+				Deadlocked = true
+			}
+			time.Sleep(200 * time.Microsecond)
+			for i := range blocked {
+				blocked[i] = false
+			}
+			if !Deadlocked {
+				continue
+			}
+			for i := range fns {
+				if !done[i] {
+					runnable = append(runnable, i)
+				}
+			}
+			Steps = maxSteps + 1 // let go of everything below
 		}
 		site := 0
 		if last >= 0 {
@@ -147,13 +262,26 @@ func Run(fns []func(), choose Chooser, maxSteps int) (schedule []byte, ok bool) 
 		schedule = append(schedule, byte(next))
 		rawWrite(ws[next].wr, 1)
 		v := rawRead(schedRd)
-		id := int(v & 0x7f)
-		if v&0x80 != 0 {
+		id := int(v & 0x3f)
+		switch {
+		case v&0x80 != 0:
 			done[id] = true
 			last = -1
-		} else {
+		case v&0x40 != 0:
+			blocked[id] = true
+			last = id
+		default:
 			last = id
 			SiteHits[yieldSite[id]]++
+		}
+		if v&0x40 == 0 {
+			// somebody made a step: whatever the others wait for may have changed
+			stuckSince = time.Time{}
+			for i := range blocked {
+				if i != id {
+					blocked[i] = false
+				}
+			}
 		}
 		if Steps > maxSteps {
 			ok = false
@@ -182,10 +310,16 @@ func Run(fns []func(), choose Chooser, maxSteps int) (schedule []byte, ok bool) 
 //go:norace
 func runWorker(w *worker, fn func(), wg *sync.WaitGroup) {
 	defer wg.Done()
+	w.goid = goid()
+	rawWrite(schedWr, 0xff) // registered
 	rawRead(w.rd)
-	cur = w
+	if !GoroutineMode {
+		cur = w
+	}
 	fn()
-	cur = nil
+	if !GoroutineMode {
+		cur = nil
+	}
 	if active {
 		rawWrite(schedWr, byte(w.id)|0x80)
 	}
@@ -197,5 +331,5 @@ func runWorker(w *worker, fn func(), wg *sync.WaitGroup) {
 func ResetReach() {
 	SiteHits = map[int]int{}
 	Adjacent = map[[2]int]int{}
-	Steps, Switches = 0, 0
+	Steps, Switches, BlockedPolls = 0, 0, 0
 }
